@@ -1,0 +1,32 @@
+//go:build verif
+
+// Contracts for lex.go and the goroutine bodies of ParseFile
+// (see /verif/DESIGN.md section 7: C07, C08, C11, C20). Comment-only file.
+
+package bcl
+
+//@ group C07,C08,C11
+//@ ghost var ev_bytes_inputs int     // number of input bytes received by the lexer so far
+//@ ghost var ev_closed_inputs bool   // the lexer has seen its input channel closed
+//@ ghost var ev_send_tokens int      // tokens sent by the lexer
+//
+// slot of the line-table updater handed to the lexer
+//@ slot lexer.lpUpd (s string, prefix int)
+//@   modifies lineCalc.lfs
+//
+// next(): refill and decode one character.
+// Window invariant: the window input[0..len) holds the stream bytes
+// [posShift, posShift+len), and posShift+len is the number of bytes received.
+//@ func (*lexer).next
+//@   requires window: 0 <= l.start && l.start <= l.pos && l.pos <= len(l.input) && l.posShift + len(l.input) == g.ev_bytes_inputs && l.lpUpd != nil && l.posShift >= 0
+//@   ensures window: 0 <= l.start && l.start <= l.pos && l.pos <= len(l.input) && l.posShift + len(l.input) == g.ev_bytes_inputs && l.lpUpd == old(l.lpUpd) && l.posShift >= 0
+//@   ensures [C07,C11] end_of_input_only_when_closed: result == eof ==> g.ev_closed_inputs && l.pos == len(l.input) && l.width == 0
+//@   ensures [C07] token_start_is_absolute: l.posShift + l.start == old(l.posShift + l.start)
+//@   ensures [C07,C08] cursor_advances_by_width: result != eof ==> l.posShift + l.pos == old(l.posShift + l.pos) + l.width && 1 <= l.width && l.width <= 4
+//@   ensures [C07] end_keeps_cursor: result == eof ==> l.posShift + l.pos == old(l.posShift + l.pos)
+//@   ensures [C07] decoded_from_complete_character: result != eof ==> fullrune(l.input[l.pos - l.width:]) || g.ev_closed_inputs
+//@   ensures [C07] received_only_grows: g.ev_bytes_inputs >= old(g.ev_bytes_inputs) && (old(g.ev_closed_inputs) ==> g.ev_closed_inputs)
+//@   assert [C07,C08] line_table_gets_the_absolute_offset_of_the_chunk: at slot.lexer.lpUpd: $prefix == g.ev_bytes_inputs - len($s) && $prefix >= 0
+//@   loop 1 invariant window: 0 <= l.start && l.start <= l.pos && l.pos <= len(l.input) && l.posShift + len(l.input) == g.ev_bytes_inputs && l.lpUpd == old(l.lpUpd) && l.lpUpd != nil && l.posShift >= 0
+//@   loop 1 invariant abstract_positions_kept: l.posShift + l.start == old(l.posShift + l.start) && l.posShift + l.pos == old(l.posShift + l.pos) && g.ev_bytes_inputs >= old(g.ev_bytes_inputs) && !g.ev_closed_inputs && (old(g.ev_closed_inputs) ==> g.ev_closed_inputs)
+//@   modifies l.input, l.start, l.pos, l.posShift, l.width, lineCalc.lfs, g.ev_bytes_inputs, g.ev_closed_inputs
